@@ -10,6 +10,10 @@
 //	  "file:hand=..."; 20 shapes (+3 with CIDv0 links) with a leading-empty child as
 //	  "file:leading-empty=..." (known finding: such a child is never requested and no error is
 //	  reported when it is unavailable; nothing else can fail under that name);
+//	hand-built files without (complete) BlockSizes (nobs_test.go): 15 | 21 multi-level shapes (2-3 |
+//	  2-4 levels, raw and dag-pb leaves) x 7 variants of which interior nodes leave out BlockSizes
+//	  and FileSize, + 3 shapes with CIDv0 links, as "file:noBS=<shape>/<variant>...": a dag-pb child
+//	  without a recorded size is measured by opening it, and must still be read through;
 //	HAMTs: fanouts {8,256} | {8,16,64,256,1024} with 120 | 1500 random + colliding names whose
 //	  entries point at multi-block files, at a plain directory and at another HAMT; also a plain
 //	  directory with such entries (nothing may be requested).
@@ -188,6 +192,7 @@ func TestBounded(t *testing.T) {
 	}
 
 	handBuilt(t, r)
+	noBlockSizes(t, r)
 
 	builder.DefaultLinksPerBlock = 2
 	rng := vp.Rng(6)
